@@ -142,9 +142,14 @@ def _create_derived_functions(
     - combinations of these
     """
 
-    # Create parent-child relationships
+    # Create parent-child relationships. Their source columns may be time conversions
+    # of functions or data columns (e.g. if the data provide `betreuungskost_y` instead
+    # of `betreuungskost_m`), so these conversions need to be known here already.
     aggregate_by_p_id_functions = _create_aggregate_by_p_id_functions(
-        user_and_internal_functions,
+        {
+            **create_time_conversion_functions(user_and_internal_functions, data_cols),
+            **user_and_internal_functions,
+        },
         aggregate_by_p_id_specs,
         data_cols,
     )
